@@ -626,6 +626,25 @@ def omission_criterion(ctx, P):
                'explicit request' if from_request else ('predicate scanning every byte of the block' if from_scan else
                'the block is left out on the word of %s, which does not examine every sample: written samples inside such a block are lost and read back as synthesised values' % (unverified or 'an unverified criterion')))
     ctx.floor('definitions that can enable omission', n, 2)
+    # the block is complete when it is examined: no store into the sample block can follow a scan of it
+    scans = [c for c in f.calls() if P.functions.get(c.callee) is not None and full_scan_predicate(P, P.functions[c.callee])]
+    aliases = set(ev.name for ev in f.events() if ev.k == 'decl' and ev.e is not None and (ev.t or '').startswith('p:') and
+                  any(m.get('op') == 'member' and m.get('field') == 'data' for m in walk(ev.e)))
+    late = []
+    for ev in f.stores():
+        l0 = strip_casts(ev.store_parts()[0])
+        if ev.k != 'store' or l0.get('op') != 'sub':
+            continue
+        base = strip_casts(l0['k'][0])
+        if not ((base.get('op') == 'ref' and base.get('name') in aliases) or (base.get('op') == 'member' and base.get('field') == 'data')):
+            continue
+        for c in scans:
+            if find_path(f, c, lambda e2, facts: 'target' if e2 is ev else None, refine=False) is not None:
+                late.append((ev, c))
+    if scans:
+        ctx.ob('C09.7', not late, f.name, 'the block is complete when it is examined', (late[0][0] if late else scans[0]).where(),
+               'every store into the sample block precedes the scan' if not late else
+               'the store %s into the sample block can follow the scan by %s: the predicate saw a stale byte there (the pending partial byte of a sub-byte signal), so a block whose last samples differ is taken for constant, left out, and the signal loses them' % (show(late[0][0].e)[:60], late[0][1].callee))
 
 
 def realign_reads_rule(ctx, P, f, fd, psz, dts):
